@@ -26,6 +26,8 @@ var props = map[string]*propDef{}
 func register(id string, d *propDef) { props[id] = d }
 
 func main() {
+	// the abstract interpreter allocates many short-lived environments; collect less often
+	debug.SetGCPercent(600)
 	if len(os.Args) < 2 {
 		usage()
 	}
